@@ -111,6 +111,13 @@ def Ciph.read (c : Ciph) (n : Nat) (inp : Bytes) : Except Err (Bytes × Ciph × 
   | .error e => .error e
   | .ok (raw, rest) => .ok ((c.apply raw).1, (c.apply raw).2, rest)
 
+/-- `binary.Read(s.r, BigEndian, &n)` for a `uint16` followed by reading `n` bytes through `s.r`
+(`io.CopyN`): PadC, IA and PadD are framed like this. -/
+def readBlock16 (r : Ciph) (inp : Bytes) : Except Err (Bytes × Ciph × Bytes) :=
+  match r.read 2 inp with
+  | .error e => .error e
+  | .ok (l, r, rest) => r.read (fromBE l) rest
+
 /-! ### `readSync` -/
 
 inductive SyncRes where
@@ -195,10 +202,19 @@ def outFinish (r w : Ciph) (provide fr : Nat) (inp : Bytes) : Except Err Done :=
     let (selB, r2, rest) ← (r.apply vc).2.read 4 rest
     let selected := fromBE selB
     selectedCheck selected provide
-    let (lenB, r3, rest) ← r2.read 2 rest
-    let (_, r4, rest) ← r3.read (fromBE lenB) rest
+    let (_, r4, rest) ← readBlock16 r2 rest
     pure { selected, provided := provide, r := updateCipher selected r4, w := updateCipher selected w,
            buffered := [], rest }
+
+/-- The `selected` result of a *failed* `HandshakeOutgoing`: it is a named result, so it keeps the
+value decoded from step 4 when a later step fails (`Dial` hands it on as `cipher`). -/
+def outStaleSelected (r : Ciph) (fr : Nat) (inp : Bytes) : Nat :=
+  match readSync (r.apply vc).1 (616 - (fr : Int)) inp with
+  | .found rest =>
+    match (r.apply vc).2.read 4 rest with
+    | .ok (selB, _, _) => fromBE selB
+    | .error _ => 0
+  | _ => 0
 
 /-- `HandshakeOutgoing`: bytes written, and the result. -/
 def outgoing (c : Crypto) (o : OutCfg) (fr : Nat) (inp : Bytes) : Bytes × Except Err Done :=
@@ -211,6 +227,15 @@ def outgoing (c : Crypto) (o : OutCfg) (fr : Nat) (inp : Bytes) : Bytes × Excep
     | .ok (yb, rest) =>
       (msg1 ++ (outMsg3 c o yb).1,
        outFinish (outMsg3 c o yb).2.1 (outMsg3 c o yb).2.2 o.provide fr rest)
+
+/-- `selected` as returned by a failed `HandshakeOutgoing` (0 unless step 4 was decoded). -/
+def outgoingStale (c : Crypto) (o : OutCfg) (fr : Nat) (inp : Bytes) : Nat :=
+  if o.provide = 0 then 0
+  else if o.ia.length > 65535 then 0
+  else
+    match firstRead fr inp with
+    | .error _ => 0
+    | .ok (yb, rest) => outStaleSelected (outMsg3 c o yb).2.1 fr rest
 
 structure InCfg where
   x : Bytes
@@ -243,10 +268,8 @@ def inFinish (c : Crypto) (i : InCfg) (S : Bytes) (fr : Nat) (inp : Bytes) : Exc
       if provide = 0 then .error .noProvide else
       let selected := i.select provide
       selectedCheck selected provide
-      let (lc, r3, rest) ← r2.read 2 rest
-      let (_, r4, rest) ← r3.read (fromBE lc) rest
-      let (li, r5, rest) ← r4.read 2 rest
-      let (ia, r6, rest) ← r5.read (fromBE li) rest
+      let (_, r4, rest) ← readBlock16 r2 rest
+      let (ia, r6, rest) ← readBlock16 r4 rest
       let step4 := w0.apply (vc ++ be32 selected ++ be16 i.padDLen ++ zeros i.padDLen)
       pure (step4.1, { selected, provided := provide, r := updateCipher selected r6,
                        w := updateCipher selected step4.2, buffered := ia, rest })
@@ -467,9 +490,8 @@ def dial (c : Crypto) (g : DialCfg) (e : DialEnv) : Bytes × Bytes × Outcome Co
         else if g.force then (w, [], .err .notEncrypted)
         else if e.dial2 = false then (w, [], .err .dialFailed)
         else
-          -- NB the `cipher` variable keeps whatever the failed handshake left in it; the value
-          -- is not part of this model's outcome for the retry (reported as 0 here, see notes).
-          (w, out, dialTail g 0 true (.plain e.inp2))
+          -- NB the `cipher` result keeps whatever the failed handshake left in `selected`
+          (w, out, dialTail g (outgoingStale c o e.fr e.inp1) true (.plain e.inp2))
       | (w, .ok d) => (w, [], dialTail g d.selected false (.mse d))
     else
       (out, [], dialTail g 0 false (.plain e.inp1))
